@@ -24,7 +24,11 @@ package main
 // 128 inner nodes, each entry counting the steps before it) is the only part of
 // the format whose growth is not bounded by a constant: every entry grows by one
 // and may cross 127->128 or 16383->16384; the shape "plateau" is built to make
-// many entries sit on such a boundary.
+// many entries sit on such a boundary. (Coq: C17_prefix_delta_bound proves
+// size(P+K) <= size(K) + 9 + entries, C17_prefix_never_shrinks the other side.)
+// A delta above 16 is classified: root gains a step and delta <= 16 + entries ->
+// key C17:prefix-delta:rank-index-varint-carry (known finding); anything else ->
+// key C17:prefix-delta.
 //
 // Correspondence: for the cases small enough for the extracted model (a few
 // thousand nodes) the whole Slim message built by creator.build is printed field
@@ -145,7 +149,7 @@ func c17MaskNodes(n int, masks []uint32, tail func(j, b int) []byte) []string {
 	return ks
 }
 
-func c17Shapes() []c17Shape {
+func c17Shapes(maxCat int) []c17Shape {
 	return []c17Shape{
 		{"caterpillar", func(r *RNG, n int) []string {
 			// binary caterpillar in half-bytes: 1^i 2, every inner node has two labels, depth n
@@ -156,7 +160,7 @@ func c17Shapes() []c17Shape {
 				ns = append(ns, 1)
 			}
 			return ks
-		}, 12000},
+		}, maxCat},
 		{"caterpillar-varied", func(r *RNG, n int) []string {
 			// caterpillar whose spine/leaf half-bytes change at every level (up to 240 label pairs),
 			// with an occasional single-branch run
@@ -178,7 +182,7 @@ func c17Shapes() []c17Shape {
 				}
 			}
 			return ks
-		}, 12000},
+		}, maxCat},
 		{"caterpillar-forest", func(r *RNG, n int) []string {
 			// 3-ary addressed caterpillars of depth up to 600
 			depth := 600
@@ -501,7 +505,8 @@ func init() {
 		c.Or.Rule = "cases: one PRNG stream from VERIF_SEED; a case = (shape, size parameter n, shape seed) -> a sorted list of distinct keys, built with default options (no stored prefixes) and nil values; " +
 			"shapes: binary caterpillars (plain / varied label pairs with runs / forests), long-step trees (every inner node after a run of its own length; runs of thousands of bytes), fan-out-11 byte trees (all big nodes; big prefix then binary), all-distinct 17-bit label bitmaps, regular sets aimed at ShortSize 1..10, random sets, keys of 0..16 KiB, rank-plateau sets, and the small generators of the trie properties; " +
 			"each case is also built with prefixes of 1, 100, 5000, 16000 arbitrary bytes (while keys stay <= 16 KiB and the key material within the tier budget); non-trivial = at least 2 keys; distinct = distinct (shape, keys digest)"
-		shapes := c17Shapes()
+		// caterpillar depth (= number of keys; key material grows quadratically)
+		shapes := c17Shapes(c.N(6000, 16000))
 		// ShortSize 1 cannot be chosen (no inner node has fewer than two labels)
 		for k := 2; k <= 10; k++ {
 			shapes = append(shapes, c17ShortShape(k))
@@ -779,7 +784,7 @@ func init() {
 		}
 		phase("big")
 		// random sizes
-		for i := 0; i < c.N(24, 400); i++ {
+		for i := 0; i < c.N(60, 600); i++ {
 			sh := shapes[c.R.Intn(len(shapes))]
 			runCase(sh, 1+c.R.Intn(bigN/4), i%4 == 0)
 		}
